@@ -12,8 +12,11 @@ All theorems are about the machine-integer model `RtenVerif.Protobuf` of the **f
 
 * T1 `c38_decode_terminates`, `c38_parse_total`, `c38_field_progress`, `c38_consume_within`
 * T2 `c38_overlong_length_is_error`, `c38_accepted_length_fits`, `c38_toplevel_end_is_input_size`
-* T3 `c38_decode_terminates` (no `wrap`), `c38_alloc_bounded`, `c38_depth_limit`
-* `c38_old_*`: `decide`d witnesses that the arithmetic of the code before the fix was wrong.
+* T3 `c38_decode_terminates` (no `wrap`), `c38_alloc_bounded`
+* the linear work bound and the nesting invariant are in `Props/C38Cost.lean`
+* `c38_depth_limit` is a lemma restating the depth guard; `c38_old_*` are *illustrations* (`decide`d
+  facts about isolated fragments of the pre-fix arithmetic, not a model of the old decoder). Neither
+  is in the audited property-level theorem list.
 -/
 namespace RtenVerif.Protobuf
 open RtenVerif.Generated.OnnxSchema
@@ -190,8 +193,8 @@ theorem c38_alloc_bounded {d : Bytes} (hsz : d.size < UInt64.size) {p fend : UIn
   have := consumeBlob_alloc hsz hpf hfs h
   omega
 
-/-- Nesting (S4, now enforced by the code): at depth `maxDepth = 100` an embedded message is refused,
-so the recursion depth of the decoder is bounded by a constant. -/
+/-- Lemma (restates the guard): at depth `maxDepth = 100` an embedded message is refused. The
+property-level statement is the invariant `c38_depth_invariant` in `Props/C38Cost.lean`. -/
 theorem c38_depth_limit (S : Schema) (d : Bytes) {fuel depth m child : Nat} {pos end_ num l p fend : UInt64}
     {acc : List (UInt64 × Val)} (hn : nextField d pos end_ = .field num (.len l) p fend)
     (hk : (S.lookup m num).kind = .msg child) (hd : maxDepth ≤ depth) :
@@ -227,7 +230,12 @@ example : resClass (parse schema exOverlong idModelProto) = .inl .eof := by deci
 example : (schema.lookup idModelProto 7).kind = .msg idGraphProto := by decide
 example : resClass (consumeField exOk 3 .skip (.len 2) 2 4) = .inr 4 := by decide
 
-/-! ## The arithmetic before the fix was wrong (`decide`d witnesses) -/
+/-! ## Illustrations: fragments of the arithmetic before the fix
+
+Not theorems about the old decoder (no model of it exists here): `oldCheck`, `oldSubEnd`,
+`oldSkipPos` are isolated expressions of the old code and `oldVarintOuter` is a one-state
+abstraction written to exhibit the fixed point.  They explain *why* the pre-fix tree fails; that it
+does fail is shown by running the harness against the pre-fix tree (see findings/C38.json). -/
 
 /-- Old code, input `7A F5 FF … 01 00 00 00 00`: the field's sub-reader end wraps to 0, the wrapped
 bounds check passes, and `seek_relative(len as i64)` moves the cursor from 11 back to 0 — the decoder
